@@ -232,6 +232,7 @@ def h_threads(ctx, a, b):
     finally:
         _ex._CUR = saved
     ctx.note("events", [sum(len(s["ev"]) for s in st) for st in steps])
+    ctx.note("item_events", [sum(1 for s in st for e in s["ev"] if str(e[1][1]).startswith("[")) for st in steps])
     solver, clk, nd = _encode(steps)
     ctx.note("rf_candidates", nd)
     ctx.note("rf_sample", [repr(x)[:300] for x in DEBUG[:4]])
